@@ -77,10 +77,13 @@ Print Assumptions server_rx_partition.
 (* COMPOSITE ENTRY POINT TcpServerStack.serviceAll (receive side, no transmit data queued).
    For EVERY order of the five steps that satisfies order_ok (serviceConnects never runs while
    bytes read by serviceReceivesAllIx are still unparsed, a pass ends parsed), every set of
-   accepted connections and every sequence of passes with arbitrary per-connection recv oracles
-   (data, EAGAIN, close -- in particular data followed by close within ONE pass): at every pass
-   boundary, for every connection ever accepted, LIVE OR ALREADY DROPPED, the packets delivered
-   to its remote concatenate to exactly the bytes read from its socket and nothing is buffered.
+   peers CONNECTING AT ANY PASS (several per pass, while older connections are being closed in
+   the same pass) and every sequence of passes with arbitrary per-connection recv oracles
+   (data, EAGAIN, close -- in particular data followed by close within ONE pass, and data sent
+   in the very pass of the connect): at every pass boundary, for every connection, LIVE OR
+   ALREADY DROPPED, the packets delivered TO ITS REMOTE (packets parsed for an address that has
+   no remote are dropped by messagize and do not count) concatenate to exactly the bytes read
+   from its socket and nothing is buffered.
    So every byte received on a connection is delivered before the connection is dropped. *)
 Theorem server_pass_delivers_before_drop : forall order cas passes,
   order_ok order = true ->
@@ -97,8 +100,9 @@ Print Assumptions server_serviceAll_order_is_safe.
 
 (* the premise matters: receive, THEN serviceConnects, then parse loses the last bytes *)
 Example swapped_order_loses_bytes :
-  p_run [StRecv; StConnects; StRx; StTx; StSend] [5001] [[(5001, [Data [1;2;3]; Closed])]]
-  = [(5001, mkP false [1;2;3] true [1;2;3] [])].
+  p_run [StRecv; StConnects; StRx; StTx; StSend] [5001]
+        [([5001], []); ([], [(5001, [Data [1;2;3]; Closed])])]
+  = [(5001, mkP false [1;2;3] true [1;2;3] [] true true)].
 Proof. exact swapped_order_loses. Qed.
 
 (* non-vacuity *)
